@@ -1,1 +1,34 @@
+(* C15 — property theorems only: each closed by [exact], each followed by Print Assumptions. *)
+From Dastard Require Import Common.ZX C15.Model C15.Spec C15.Proofs.
 
+(* For EVERY byte string: ReadPacket (model) never panics and never runs out of fuel; it takes no more bytes
+   than it was given and no more than the header declares (the fixed 16-byte header is always read, hence
+   the max with 16 when the decoder answers with an error); after a successful decode Length() is the
+   declared length, the bytes taken are header + payload actually held, Frames() and ChannelInfo() return
+   without panic, frames >= 0, channels >= 1, frames * channels <= number of samples held, ReadValue(i) is
+   safe for every i, and MakePretendPacket(s, k) is safe for every k <> 0 and yields a packet with the same
+   frame count, length and kind/amount of data.  (Timestamp() and IsExternalTrigger() are total functions
+   of the model: the Go code tests for nil / compares strings, nothing can panic.) *)
+Theorem decode_total_safe : forall bs, bytes_ok bs ->
+  let (r, n) := read_packet bs in
+  0 <= n <= zlen bs /\ n <= Z.max 16 (declared bs) /\
+  match r with
+  | DPanic | DFuel => False
+  | DErr => True
+  | DOk p =>
+      n <= declared bs /\ length_of p = declared bs /\ n = znth 0 bs 1 + data_bytes (pdat p) /\
+      exists f nc, frames p = Ok f /\ channel_info p = Ok (nc, offset p) /\
+        0 <= f /\ 1 <= nc /\ f * nc <= data_count (pdat p) /\ 0 <= offset p < 4294967296 /\
+        (forall i, exists v, read_value p i = Ok v) /\
+        (forall s k, k <> 0 -> exists q, make_pretend p s k = Ok q /\ frames q = Ok f /\
+                                  length_of q = length_of p /\ same_kind_count (pdat q) (pdat p) = true)
+  end.
+Proof. exact decode_total_safe_model. Qed.
+Print Assumptions decode_total_safe.
+
+(* The same, through the observable checker the correspondence run applies to the implementation:
+   whatever ReadValue / MakePretendPacket probes are chosen, the model's observation passes. *)
+Theorem decode_passes_checker : forall bs reads pret, bytes_ok bs ->
+  decode_check bs (observe_decode bs reads pret) = true.
+Proof. exact decode_passes_checker_model. Qed.
+Print Assumptions decode_passes_checker.
